@@ -11,7 +11,7 @@ from .common import Vals, Stubs, real_env, I, cls_name
 
 MANIFEST_ENTRY = {
     'category': 'proof',
-    'text': 'pow on ints, sum over int lists, range, the 32-bit bitwise natives (shift counts 0..63 enumerated, word symbolic) are proved equal to their mathematical definitions for all integers with loop invariants; zip/zip_map symbolic-bounded; the library functions written in Checkerlang (set algebra, unique, reverse, flatten, grouped, filter, map_list, reduce, prod, enumerate, chunks, pairs, interval, min/max, mean/median*, gcd/lcm/abs/sign) are checked by bounded runtime contracts against host-language oracles over all permutations of small inputs; grouped with NULL elements and NULL keys in the stand-in',
+    'text': 'pow on ints, sum over int lists, range, the 32-bit bitwise natives (shift counts 0..63 enumerated, word symbolic) are proved equal to their mathematical definitions for all integers with loop invariants; zip/zip_map symbolic-bounded; the library functions written in Checkerlang (set algebra, unique, reverse, flatten, grouped, filter, map_list, reduce, prod, enumerate, chunks, pairs, interval, min/max, mean/median*, gcd/lcm/abs/sign) are checked by bounded runtime contracts against host-language oracles over all permutations of small inputs; grouped with NULL elements and NULL keys in the stand-in; mean gives the identical float for every arrangement; gcd/lcm on the whole signed domain including zero; empty sum and product (bounded)',
     'note': 'x ** y and & | ^ of CPython trusted (uninterpreted, named in the spec); Checkerlang library code is outside the VC generator (bounded only)',
     'technique': 'deductive verification: pyvc VCs from the real AST + z3/cvc5 (loop invariants); bounded runtime contracts for CKL library code',
 }
